@@ -109,6 +109,12 @@ def run_case(case, i, extcache):
     os.environ['C12_SENTINEL'] = sentinel
     trace = os.path.join(root, 'trace.ndjson')
     os.environ['JEDI_VERIF_TRACE'] = trace
+    for modn in ['modplain_zz', 'gi'] + MAGIC:       # in-process rows import into THIS process: forget earlier cases
+        for k in [k for k in sys.modules if k == modn or k.startswith(modn + '.')]:
+            if getattr(sys.modules[k], '__file__', None) and os.environ['C12_TMP'] in str(sys.modules[k].__file__):
+                del sys.modules[k]
+    import importlib
+    importlib.invalidate_caches()
     m = materialise(case, root, i, extcache)
     if m is None:
         shutil.rmtree(root, True)
@@ -119,9 +125,14 @@ def run_case(case, i, extcache):
     elif case['syspath'] == 'explicit_without_project':
         kw['sys_path'] = [m['other']]
     proj = jedi.Project(m['proj'], **kw)
-    env = SameEnvironment()          # a fresh helper per case (inherits C12_SENTINEL and PYTHONPATH incl. the env dir)
+    if case.get('envkind') == 'inprocess':
+        from jedi.api.environment import InterpreterEnvironment
+        env = InterpreterEnvironment()   # finders and imports run in THIS process: the host state checks cover them
+    else:
+        env = SameEnvironment()      # a fresh helper per case (inherits C12_SENTINEL and PYTHONPATH incl. the env dir)
     name = m['name']
-    src = 'import %s\nfrom %s import *\nfrom %s import value_zz as alias_zz\n%s.\nalias_zz\nvalue_zz\nimport pytest\n' % (name, name, name, name)
+    src = ('import %s\nfrom %s import *\nfrom %s import value_zz as alias_zz\n%s.\nalias_zz\nvalue_zz\nimport pytest\n'
+           'import dependency_not_installed_zz\ndependency_not_installed_zz\nimport gi\ngi\n') % (name, name, name, name)
     path = os.path.join(m['proj'], 'main_buf_zz.py')
     outcomes = {}
     # warm-up on an unrelated buffer so that jedi's own lazy imports are not mistaken for a change of host state
@@ -134,7 +145,8 @@ def run_case(case, i, extcache):
     before = host_state()
     s = jedi.Script(src, path=path, project=proj, environment=env)
     calls = [('complete', 4, len(name) + 1), ('infer', 1, 8), ('goto', 1, 8), ('infer', 5, 3), ('goto', 5, 3), ('infer', 6, 3),
-             ('help', 1, 8), ('get_references', 5, 3), ('get_signatures', 4, 2), ('get_context', 5, 1), ('complete', 7, 13)]
+             ('help', 1, 8), ('get_references', 5, 3), ('get_signatures', 4, 2), ('get_context', 5, 1), ('complete', 7, 13),
+             ('infer', 9, 5), ('goto', 8, 10), ('infer', 11, 1), ('goto', 10, 8)]
     for meth, l, c in calls:
         try:
             r = getattr(s, meth)(l, c)
@@ -200,15 +212,22 @@ def run_case(case, i, extcache):
 
 
 def main():
+    if sys.argv[1] == '--build-ext':
+        os.makedirs(sys.argv[2], exist_ok=True)
+        for n in ['modplain_zz', 'gi'] + MAGIC:
+            build_ext(n, sys.argv[2])
+        return
     os.environ.setdefault('VERIF_CACHE_BASE', os.environ['C12_TMP'])
     from harness.core import private_cache
     private_cache()
     cases = json.load(open(sys.argv[1]))
     envdir = os.environ['C12_ENVDIR']
     extcache = {}
-    extdir = tempfile.mkdtemp(prefix='c12ext_', dir=os.environ['C12_TMP'])
-    for n in ['modplain_zz', 'gi'] + MAGIC:
-        extcache[n] = build_ext(n, extdir)
+    extdir = os.environ.get('C12_EXTDIR') or tempfile.mkdtemp(prefix='c12ext_', dir=os.environ['C12_TMP'])
+    import sysconfig
+    for n in ['modplain_zz', 'gi'] + MAGIC:       # compiled once per check run (C12_EXTDIR), reused by every worker
+        so = os.path.join(extdir, n + sysconfig.get_config_var('EXT_SUFFIX'))
+        extcache[n] = so if os.path.exists(so) else build_ext(n, extdir)
     out = []
     for i, c in enumerate(cases):
         # the env location is shared by all cases of this worker: keep it clean
